@@ -165,12 +165,14 @@ def unescape (b : List Nat) (attr : Bool) : List Nat := unescapeAux attr b.lengt
 /-! ### Comments: `escapeComment` and the tokenizer's `Text()` pipeline for comment data -/
 
 /-- `escapeComment(w, s)`: every `&` becomes `&amp;`; `>` becomes `&gt;` iff it is the first byte or
-follows `!` or `-`. `prev` is the previous input byte (`none` at the start). -/
+follows `!` or `-`; every CR becomes `&#13;` (since the `fix:` commit for C40 comment-cr-unescaped).
+`prev` is the previous input byte (`none` at the start). -/
 def escapeCommentAux : Option Nat → List Nat → List Nat
   | _, [] => []
   | prev, c :: s =>
     (if c = 38 then ampE
      else if c = 62 ∧ (prev = none ∨ prev = some 33 ∨ prev = some 45) then gtE
+     else if c = 13 then crE
      else [c]) ++ escapeCommentAux (some c) s
 
 def escapeComment (s : List Nat) : List Nat := escapeCommentAux none s
